@@ -68,7 +68,7 @@ Definition set_stack (c : ictx) (s : list ielem) : ictx :=
 Definition set_top (c : ictx) (e : ielem) : ictx := set_stack c (removelast (ic_stack c) ++ [e]).
 
 (** iscan_findfirst: descend along the start key *)
-Fixpoint ifindfirst (fuel : nat) (ls : layers_t) (c : ictx) (start : key) (sp : endpoint)
+Fixpoint ifindfirst (fx12 : bool) (fuel : nat) (ls : layers_t) (c : ictx) (start : key) (sp : endpoint)
          (one_point : bool) (cmp0 : bool) (cbs : list (N * N)) : iout :=
   match fuel with
   | O => {| io_status := IS_STUCK; io_value := None; io_cbs := cbs; io_ctx := c |}
@@ -91,7 +91,7 @@ Fixpoint ifindfirst (fuel : nat) (ls : layers_t) (c : ictx) (start : key) (sp : 
               (* case 1: a link: go down *)
               let c' := push_elem c e in
               let cmp0' := cmp0 && kt_eq kt (end_tuple c (length (ic_stack c))) in
-              ifindfirst f ls c' (skipn 8 start) sp one_point cmp0' cbs
+              ifindfirst fx12 f ls c' (skipn 8 start) sp one_point cmp0' cbs
             else
               (* case 2: the start key itself *)
               match sl_lv s with
@@ -102,8 +102,12 @@ Fixpoint ifindfirst (fuel : nat) (ls : layers_t) (c : ictx) (start : key) (sp : 
               | _ => {| io_status := IS_STUCK; io_value := None; io_cbs := cbs; io_ctx := c |}
               end
           | None =>
-            (* case 3 *)
-            let cbs' := if one_point then cbs ++ [(lf_id l, lf_ver l)] else cbs in
+            (* case 3: findnext makes the callback for this border, except when it takes the callback range for empty
+               (its start tuple equals the end tuple of an inclusive range); the pinned source made up for that only
+               when the two KEYS are equal (one_point); when only the tuples are equal -- both endpoints inside one
+               next-layer slice that holds no entry -- no border was recorded at all (finding F12; fx12 = false) *)
+            let same_tuple := fx12 && cmp0 && ep_eqb (ic_end_ep c) EP_INCL && kt_eq kt (end_tuple c (length (ic_stack c))) in
+            let cbs' := if one_point || same_tuple then cbs ++ [(lf_id l, lf_ver l)] else cbs in
             {| io_status := IS_CONT; io_value := None; io_cbs := cbs'; io_ctx := push_elem c e |}
           end
       end
@@ -248,7 +252,7 @@ Definition iscan_open_gen (fix5 : bool) (tr : tree) (a : iscan_args) : iout :=
     let one_point := prefix_eqb start (ic_end_key c) && ep_eqb sp EP_INCL && ep_eqb (ic_end_ep c) EP_INCL in
     let cmp0 := negb (negb rtl && ep_eqb sp EP_INF) in
     let big := (layers_entries (t_layers tr) + 4)%nat in
-    let o := ifindfirst (S (length (t_layers tr))) (t_layers tr) c start sp one_point cmp0 [] in
+    let o := ifindfirst fix5 (S (length (t_layers tr))) (t_layers tr) c start sp one_point cmp0 [] in
     match io_status o with
     | IS_CONT => inext fix5 (S (length (t_layers tr))) big (t_layers tr) (io_ctx o) (io_cbs o)
     | _ => o
